@@ -1,6 +1,45 @@
+import Proofs.C15.Size
 /-!
-# C15 — property theorems only (see DESIGN.md §3 C15).
+# C15 — miniscript typing, compilation, read-back and satisfaction are consistent
+
+Property theorems only (see DESIGN.md §3 C15).  The model is `Model/C15/*`; its type tables,
+script templates, overheads, op code bytes and limits are the translated source
+(`Generated/Miniscript.lean`, regenerated from /repo every run), so a changed table entry in
+btclib breaks an obligation here.
 -/
 namespace Props.C15
+open Btc Btc.Miniscript Gen.Miniscript
+
+/-- T1: for EVERY well-shaped expression (well-typed or not), in both dialects and whether or not
+    its last op code is folded into a VERIFY form, the statically computed `script_size` is exactly
+    the length of the script `_fragment_script` writes.  `h160` is any 20-byte hash. -/
+theorem script_size_eq_compiled_length (ctx : Ctx) (h160 : Bytes → Bytes)
+    (hh : ∀ b, (h160 b).length = 20) (n : Ms) (verify : Bool) (hs : shaped ctx n = true) :
+    scriptSize ctx n = (compile ctx h160 verify n).length :=
+  scriptSize_eq_length ctx h160 hh n verify hs
+
+/-- T1, at the public entry point: whatever `Miniscript.script()` returns has `script_size` bytes,
+    and fits the context's script size limit. -/
+theorem script_length (ctx : Ctx) (h160 : Bytes → Bytes) (hh : ∀ b, (h160 b).length = 20)
+    (n : Ms) (hs : shaped ctx n = true) (s : Bytes) (h : script ctx h160 n = some s) :
+    s.length = scriptSize ctx n ∧ s.length ≤ maxScriptSize ctx := by
+  unfold script at h
+  split at h
+  · rename_i hv
+    cases h
+    have := scriptSize_eq_length ctx h160 hh n false hs
+    simp only [isValid, Bool.and_eq_true, decide_eq_true_eq] at hv
+    omega
+  · cases h
+
+/-- non-vacuity: `and_v(v:pk(K),older(144))` under P2WSH is shaped, valid, and its script is the
+    expected 39 bytes with the CHECKSIG folded into CHECKSIGVERIFY. -/
+example :
+    let k : Key := 2 :: List.replicate 32 7
+    let n : Ms := .bin .and_v (.wrap .v (.wrap .c (.pk_k k))) (.older 144)
+    shaped .p2wsh n = true ∧ scriptSize .p2wsh n = 39 ∧
+      (script .p2wsh (fun _ => List.replicate 20 0) n).map (·.length) = some 39 ∧
+      (script .p2wsh (fun _ => List.replicate 20 0) n).map (·.drop 34) = some [173, 2, 144, 0, 178] := by
+  decide
 
 end Props.C15
